@@ -1271,6 +1271,17 @@ class P2Gen:
         self.emit("{ std::chrono::duration<double> dd = au::milli(au::seconds)(" + self.ld(f64, x / 8) + "); out(\"%s\", dd.count()); }"
                   % self.tag("chrono.double"))
         self.emit("{ au::QuantityD<au::Seconds> q = ms; out(\"%s\", q); }" % self.tag("chrono.implicit"))
+        # every mixed operator, both operand orders, operands differing in unit (and the foreign type on the LEFT too): a program
+        # such as `ms != au::seconds(1)` must be accepted alike, with the same value, under every standard
+        import operator as _op
+        ops = [("eq", "==", _op.eq), ("ne", "!=", _op.ne), ("lt", "<", _op.lt), ("le", "<=", _op.le), ("gt", ">", _op.gt), ("ge", ">=", _op.ge)]
+        zq = r.choice([z, max(1, x // 1000), x // 1000 + 1])
+        for name, sym, fn in ops:
+            self.out(f"chrono.mix.{name}.dq", f"(ms {sym} au::seconds({self.ld(i64, zq)})) ? 1 : 0", int(fn(x, zq * 1000)), "chrono")
+            self.out(f"chrono.mix.{name}.qd", f"(au::seconds({self.ld(i64, zq)}) {sym} ms) ? 1 : 0", int(fn(zq * 1000, x)), "chrono")
+        self.out("chrono.mix.add.dq", "ms + au::seconds(" + self.ld(i64, z) + ")", z * 1000 + x, "chrono")
+        self.out("chrono.mix.sub.dq", "ms - au::seconds(" + self.ld(i64, z) + ")", x - z * 1000, "chrono")
+        self.out("chrono.mix.sub.qd", "au::seconds(" + self.ld(i64, z) + ") - ms", z * 1000 - x, "chrono")
         self.count("chrono", 4)
 
     def constants_function(self):
